@@ -137,10 +137,29 @@ def extract(unit, enums, sigs):
     post_subst, ret_default, loops, region]"""
     src = repo_text(unit['file'])
     s0, p_open, p_close, b_open, b_close = locate(src, unit['locator'], unit.get('which', 0), unit.get('expect', 1))
+    region = unit.get('region')
+    if region:
+        # region unit: a statement range inside the located function, delimited by two anchor regexes (each must
+        # match exactly once inside the body); live-in variables become parameters (declared in the unit)
+        body_txt = src[b_open:b_close + 1]
+        ms = list(re.finditer(region['start'], body_txt)); me = list(re.finditer(region['end'], body_txt))
+        if len(ms) != 1 or len(me) != 1 or me[0].end() <= ms[0].start():
+            raise ExtractError('region anchors of %s matched %d / %d times' % (unit.get('cname'), len(ms), len(me)))
+        r0 = b_open + ms[0].start(); r1 = b_open + me[0].end()
+        fake = '%s %s(%s) {%s}' % (region.get('ret', 'void'), 'REGION', ', '.join('%s %s' % p for p in region['params']), src[r0:r1])
+        off = len(src)
+        src = src + '\n' + fake
+        s0 = off + 1; p_open = src.index('(', s0); p_close = src.index(')', p_open)
+        b_open = src.index('{', p_close); b_close = len(src) - 1
+        line_r0 = src.count('\n', 0, r0) + 1; line_r1 = src.count('\n', 0, r1) + 1
     span = src[s0:b_close + 1]
     line0 = src.count('\n', 0, s0) + 1
     line1 = src.count('\n', 0, b_close) + 1
+    if region:
+        line0, line1 = line_r0, line_r1
     ctx = Ctx(unit, enums, sigs)
+    for g, gty in (unit.get('globals') or {}).items():
+        ctx.env[g] = (gty, False)
     cname = unit['cname']
     if cname not in sigs:
         raise ExtractError('no contract prototype for %s' % cname)
@@ -250,6 +269,7 @@ def extract(unit, enums, sigs):
         toks = [toks[0]] + r_ctor_init(ctx, pre(init_toks)) + toks[1:]
     for rule in unit.get('pre_rules', []):
         toks = rule(ctx, toks)
+    toks = r_drop_streams(ctx, toks)
     toks = r_rangefor(ctx, toks)
     scan_decls(ctx, toks)
     # member access
@@ -257,6 +277,8 @@ def extract(unit, enums, sigs):
         funcs, datas = class_members(unit['cls_file'], unit.get('cls_decl', cls))
         toks = r_members(ctx, toks, cls, funcs, datas)
     toks = r_local_refs(ctx, toks)
+    toks = r_nstring_cmp(ctx, toks)
+    toks = r_ctor_calls(ctx, toks)
     toks = r_opcalls(ctx, toks)
     toks = r_methods(ctx, toks)
     toks = r_methods(ctx, toks)      # second pass: methods on call results  f(...).g(...)
